@@ -78,7 +78,7 @@ Theorem C16_manpage_document_total_balanced :
 Proof. exact manpage_document_total_balanced. Qed.
 Print Assumptions C16_manpage_document_total_balanced.
 
-(* ---- `render_html` and `render_manpage` succeed for every parser: the documents exist (above) and hold
+(* ---- `render_html`, `render_markdown` and `render_manpage` succeed for every parser: the documents exist (above) and hold
    no block their renderer cannot handle -- Block::Meta is `todo!()` in the HTML renderer, Block::TermRef in
    the roff one; neither can come from a user's Doc, and bpaf's own writers put Meta only into the manpage *)
 Theorem C16_render_html_succeeds :
@@ -86,6 +86,13 @@ Theorem C16_render_html_succeeds :
   exists d html, collect_html env app (ometa_of o) (oinfo_of o) = Some d /\ render_html full d = Some html.
 Proof. exact render_html_returns. Qed.
 Print Assumptions C16_render_html_succeeds.
+
+(* `render_markdown` renders the document `render_html` renders; its only panic site is Block::Meta too *)
+Theorem C16_render_markdown_succeeds :
+  forall env app o full, odok o ->
+  exists d md, collect_html env app (ometa_of o) (oinfo_of o) = Some d /\ render_markdown full d = Some md.
+Proof. exact render_markdown_returns. Qed.
+Print Assumptions C16_render_markdown_succeeds.
 
 Theorem C16_render_manpage_succeeds :
   forall env app o, odok o ->
